@@ -6,4 +6,5 @@ export GOFLAGS=-mod=mod GOPROXY=off GOSUMDB=off GOTOOLCHAIN=local GOWORK=off
 mkdir -p "$HERE/bin" "$HERE/evidence" "$HERE/replays"
 cd "$HERE/harness" || exit 1
 go build -tags verif -o "$HERE/bin/check" ./cmd/check || exit 1
+go build -tags verif,tiny -o "$HERE/bin/check_tiny" ./cmd/check || exit 1
 echo "setup ok"
